@@ -26,7 +26,8 @@ Cases ==
   [via : {"ctor", "from_data", "iter"}, frames : {0, 1, 3},   \* 0 = INDEFINITE, 1 = not animated
    loops : {-1, 0, 2}, cachekind : {"bool", "int"}, cacheb : BOOLEAN, cachen : {-1, 0, 2, 3},
    data : {"ok", "other-class", "finalized", "not-iteration"}, args : {"none", "own", "incompatible"},
-   fits : {"yes", "render-too-big", "padding-too-big"}]
+   fits : {"yes", "render-too-big", "padding-too-big"},
+   finalize : BOOLEAN]     \* _from_render_data_(finalize=...): does the iterator own the data?
 
 Relevant(c) ==
   /\ (c.via # "from_data" => c.data = "ok")
@@ -35,6 +36,7 @@ Relevant(c) ==
   /\ (c.cachekind = "int" => c.cacheb)
   /\ (c.fits # "yes" => c.cachekind = "bool" /\ c.data = "ok" /\ c.args # "incompatible" /\ c.loops # 0)
   /\ (c.via = "iter" => c.fits # "padding-too-big")
+  /\ (c.via # "from_data" => c.finalize)     \* the parameter exists for _from_render_data_ only
 
 Verdict(c) ==
   IF c.via = "iter" THEN (IF c.frames = 1 THEN "NonAnimatedRenderableError" ELSE "ok")
